@@ -375,6 +375,36 @@ def return_values_from(fn, block):
     work = [block]
     out = set()
     succ = fn.succ()
+    # carriers: temporaries that exist only to hand the return value on (`t = false; .. _0 = move t`, as left behind by a spliced-in
+    # helper's own return place): an assignment to one of them is an assignment to `_0`
+    carriers = fn._cache.get("ret_carriers")
+    if carriers is None:
+        from .canon import _count_uses
+        uses = _count_uses(fn.rec)
+
+        def src(st):
+            if st.get("k") == "=" and "p" not in st["p"] and "use" in st.get("rv", {}):
+                o = st["rv"]["use"]
+                pl = (o.get("mv") or o.get("cp")) if isinstance(o, dict) else None
+                if pl is not None and "p" not in pl:
+                    return pl["l"]
+            return None
+        carriers = {0}
+        grew = True
+        while grew:
+            grew = False
+            into = {}
+            for bb_ in fn.blocks:
+                for st in bb_["s"]:
+                    x = src(st)
+                    if x is not None and st["p"]["l"] in carriers:
+                        into[x] = into.get(x, 0) + 1
+            for x, n in into.items():
+                # every read of x hands it on to a carrier
+                if x > fn.argc and x not in carriers and uses.get(x, 0) == n and fn.locals[x]["t"] == fn.locals[0]["t"] and not fn.locals[x].get("n"):
+                    carriers.add(x)
+                    grew = True
+        fn._cache["ret_carriers"] = carriers
     while work:
         b = work.pop()
         if b in seen:
@@ -383,7 +413,11 @@ def return_values_from(fn, block):
         bb = fn.blocks[b]
         assigned = None
         for st in bb["s"]:
-            if st["k"] == "=" and st["p"]["l"] == 0 and "p" not in st["p"]:
+            if st["k"] == "=" and st["p"]["l"] in carriers and "p" not in st["p"]:
+                o = st["rv"].get("use") if "use" in st["rv"] else None
+                pl = (o.get("mv") or o.get("cp")) if isinstance(o, dict) else None
+                if pl is not None and "p" not in pl and pl["l"] in carriers:
+                    continue    # the value is only handed on
                 assigned = st
                 break
         if assigned is not None:
@@ -395,7 +429,7 @@ def return_values_from(fn, block):
                 out.add(("other", b))
             continue
         t = bb["t"]
-        if t["k"] == "call" and t["d"]["l"] == 0 and "p" not in t["d"]:
+        if t["k"] == "call" and t["d"]["l"] in carriers and "p" not in t["d"]:
             out.add(("other", b))
             continue
         if t["k"] == "ret":
